@@ -11,6 +11,10 @@ CHECKS = {
          "bounded-exhaustive enumeration of policies; each compiled filter is executed in a cBPF interpreter over struct seccomp_data on a closed input set (thorough: full 2^32 syscall-number and architecture-tag sweeps) against the reference policy semantics",
          "Every assignment {absent, allow, trace} of a 6-name (thorough: 8) syscall alphabet x 8 default-action values x both list orders, plus whole-table / alternating / shipped run-program policies that force the long-jump code paths, plus malformed policies that must be refused. The filter that Build() hands to the kernel (after ExportBPF, via SockFprog) is interpreted with kernel cBPF semantics on native-arch x {0..4095 (thorough 0..65535), every table number +-1 with and without bit 30 / bit 31, boundary values} and on 63 foreign/flipped architecture tags; thorough adds complete 2^32 syscall-number sweeps (6 policies x 3 tags) and complete 2^32 architecture sweeps.",
          "Trusted: /verif/cbpf interpreter (kernel classic-BPF semantics for the seccomp subset; a structural pass re-checks per program that only nr and arch are loaded, so ip/args cannot matter). For nr >= 2^31 with bit 30 clear the oracle accepts refusal or the default action (the dependency refuses everything >= 2^30, which is stricter than the property)."),
+ "C02": ("exploration",
+         "bounded-exhaustive enumeration of symlink forests x pathnames x dirfd encodings x traced path syscalls issued by a real tracee under runner/ptrace; differential oracle: the kernel's own resolution of the same (dirfd, pathname) pair in the harness (O_PATH[|O_NOFOLLOW] open + readlink of /proc/self/fd)",
+         "One forest per execution (dirs a, b, a/c; files; zero or one symlink at l or a/l over ten target kinds incl. relative, absolute, '..', '.', chain, dangling, /proc/self/cwd). In it every pathname of <=2 (thorough: <=3) components over {a,b,c,x,l,.,..}, relative and absolute, with trailing and doubled slashes, plus /proc/self and /proc/thread-self aliases, is issued from cwd in {root, a} with every dirfd encoding (AT_FDCWD sign-extended, zero-extended, directory fd, fd with garbage in the upper half, closed fd) through every traced path syscall / flag word of the tier (quick: openat with 10 flag words, newfstatat +-NOFOLLOW, unlinkat, renameat2, lstat, symlinkat; thorough: all 25 incl. open/openat2 flag words, stat family, access family, readlink, unlink, rename, link, symlink, mkdir, mknod, chmod, execve/execveat); two-path calls resolve their second name against the other kind of base. A recording soft-ban policy notes every question; the expected object is what the kernel resolves, the expected class follows from the call and flags.",
+         "Names the kernel itself cannot resolve are not judged (the call fails whatever the policy answers). Paths refused by the procfs policy before the file policy is consulted count as not admitted. Two open findings (lexical '..' collapse after a symlink; final symlink followed for no-follow calls) are listed in known_findings.json with defect signatures, so a different wrong answer on the same inputs is still reported."),
  "C03": ("exploration",
          "bounded-exhaustive enumeration of syscall programs x issuer x verdict maps on a real tracer and tracee, against a reference interpreter of the script (return values from the tracee's own log, side effects from the file system)",
          "Seam A drives ptracer.Tracer directly with a scripted Handle: every program of <=2 (thorough: <=3) operations over {mkdirat, unlinkat, openat(O_CREAT) traced; getpid allowed; getuid neither allowed nor traced} x issuer in {main, forked child, vforked child, CLONE_THREAD thread, grandchild} x every map traced-op -> {allow, ban, kill}; allowed ops must execute with their real result, banned ops must not execute and must return -EACCES, killed ops and everything after must not take effect and the run must end Disallowed Syscall, a filter kill of the main thread group likewise. Seam B drives runner/ptrace.Runner with a scripted path policy: mkdirat / unlinkat / renameat2 / linkat x every per-path verdict pair x issuer.",
